@@ -117,6 +117,9 @@ ASSUMPTIONS = [
     'EXCEPT for a collection derived by choosing packages (filter_packages*, filter_packages_tags*, choose_packages*): its tags '
     'are exactly the tags of the chosen pairs - a tag none of the kept packages carries is not a tag of the result (the '
     'statement: tag counts agree with a relation holding the same pairs; nothing upstream can justify such a key there)',
+    'qwrite() / qread() are a write and a read like any other: a collection written into a stream behind other records is read back '
+    'from where it starts (the pseudo-derivation `qcache`)',
+    'a bound method taken from one DB object (old or new spelling) means that object, whatever is looked up on other objects in between',
     'insert(p, tags) names a package: directly afterwards has_package(p) holds and iter_packages() lists p, with or without tags',
     'a read line with a stray separator ("p: a, , b", "p: , a") carries the EMPTY tag name, a name like any other; as a package '
     'name (after reverse) it meets the known insert defect the same way longer names do (set(("")) is empty)',
@@ -200,7 +203,7 @@ KNOWN_KEY = 'insert-new-tag-stores-name-characters'
 
 DERIVATIONS = ('reverse', 'reverse_copy', 'copy', 'facet_collection',
                'filter_packages', 'filter_packages_copy', 'filter_packages_tags', 'filter_packages_tags_copy',
-               'filter_tags', 'filter_tags_copy', 'choose_packages', 'choose_packages_copy')
+               'filter_tags', 'filter_tags_copy', 'choose_packages', 'choose_packages_copy', 'qcache')
 
 # Derivations whose result may be kept alive NEXT TO its parent and both mutated by inserts of fresh packages
 # (pseudo-flag 'live': true on the derivation op).  Established on the unchanged tree (see ASSUMPTIONS): these build a
@@ -873,6 +876,27 @@ def run_case(ctx, case):
             elif kind in ('reverse', 'reverse_copy'):
                 nxt = spelled(ctx, cur, kind, i)()
                 nmodel = model.reversed()
+            elif kind == 'qcache':
+                # the quick cache: qwrite() into a stream that may already hold something (another collection, a header
+                # record), qread() from where this collection starts - a read like any other
+                import pickle
+                buf = io.BytesIO()
+                lead = op.get('lead', 'none')
+                if lead == 'other-collection':
+                    o = DB()
+                    o.read(iter(['zz9: qcache::other, x\n', 'yy8: qcache::other\n']))
+                    o.qwrite(buf)
+                elif lead == 'header':
+                    pickle.dump({'format': 1, 'note': 'header record'}, buf)
+                at = buf.tell()
+                cur.qwrite(buf)
+                if op.get('trail'):
+                    pickle.dump('trailer', buf)
+                buf.seek(at)
+                nxt = DB()
+                nxt.qread(buf)
+                ctx.count('qcache:lead=%s' % lead)
+                nmodel = model.same()
             elif kind == 'copy':
                 nxt = cur.copy()
                 nmodel = model.same()
@@ -1287,7 +1311,7 @@ def gen_apply(model, op):
         return model.insert(op['pkg'], op['tags'])
     if k in ('reverse', 'reverse_copy'):
         return model.reversed()
-    if k in ('copy', 'reverse_view', 'query', 'drop'):
+    if k in ('copy', 'reverse_view', 'query', 'drop', 'qcache'):
         return model
     if k == 'facet_collection':
         return model.map_tags(lambda t: t.split('::', 1)[0] if '::' in t and not t.startswith(':') else t)
@@ -1361,6 +1385,8 @@ def gen_derivation(r, model, k):
     """k in [0.34, 1): the derivation slots of the chain generator."""
     if k < 0.42:
         return {'op': r.choice(['reverse', 'reverse_copy'])}
+    if k < 0.445:
+        return {'op': 'qcache', 'lead': r.choice(['none', 'other-collection', 'header']), 'trail': r.random() < .3}
     if k < 0.47:
         return {'op': 'copy'}
     if k < 0.56:
@@ -1852,7 +1878,7 @@ _OPS_Q = {'dpair:formed/choose_packages/keeps-everything': 250, 'dpair:formed/ch
           'pair:op:query': 7000, 'pair:op:read': 2800, 'pair:op:reverse_view': 18000, 'q:absent-name-queries': 207500,
           'q:present-name-queries': 31000, 'q:with-live-derived-partner': 2100, 'q:with-live-partner': 7000,
           'view-start:both-empty': 4300, 'view-start:general': 7200, 'view-start:no-packages': 1500,
-          'view-start:no-tags': 2100, 'view-start:single-package': 2700, 'read:line-with-empty-tag-name': 5500, 'insert:without-tags': 12000, 'q:multi-name-query': 20000, 'called-through-deprecated-alias': 3000, 'q:bound-method-called-after-lookup-on-another-object': 100000}
+          'view-start:no-tags': 2100, 'view-start:single-package': 2700, 'read:line-with-empty-tag-name': 5500, 'insert:without-tags': 12000, 'q:multi-name-query': 20000, 'called-through-deprecated-alias': 3000, 'q:bound-method-called-after-lookup-on-another-object': 100000, 'op:qcache': 2400, 'qcache:lead=other-collection': 800, 'qcache:lead=header': 800}
 _OPS_T = dict((k, v * 40) for k, v in _OPS_Q.items())
 FLOORS = {'quick': {'nontrivial': 19500, 'monitors': {'M': 210000, 'M.pair': 50000, 'M.dpair': 22000, 'M.query': 310000},
                     'counters': _OPS_Q},
